@@ -163,6 +163,13 @@ def basic(user, pw):
 
 CREDS = [('none', None), ('wrong user', basic('x', 'hookpw')),
          ('wrong password', basic('hook', 'nope')),
+         ('login/password split elsewhere', basic('hoo', 'khookpw')),
+         ('everything in the password', basic('', 'hookhookpw')),
+         ('everything in the login', basic('hookhookpw', '')),
+         ('swapped', basic('hookpw', 'hook')),
+         ('password prefix', basic('hook', 'hookp')),
+         ('other case', basic('Hook', 'hookpw')),
+         ('bearer token', 'Bearer hookpw'),
          ('right', basic('hook', 'hookpw'))]
 
 
@@ -244,7 +251,7 @@ def check_webhooks(p, host):
         resp = app.test_client().post(
             other, data=json.dumps({'repository': GH_REPO}),
             headers={'X-Github-Event': 'status',
-                     'Authorization': CREDS[3][1]})
+                     'Authorization': CREDS[-1][1]})
         p.evaluations += 1
         if pending(b) or resp.status_code < 400:
             p.mismatch('github-route-on-bitbucket',
@@ -502,7 +509,8 @@ def run(tier, seed, workers=None):
              'JSON key); every management form x session x data x CSRF token '
              '(own, none) with the form-to-API call looped back; both '
              'webhook routes x credentials {none, wrong user, wrong '
-             'password, right} x repository {match, other owner, other '
+             'password, same characters split differently between login and '
+             'password, swapped, prefix, other case, bearer, right} x repository {match, other owner, other '
              'slug} x handled and unhandled events, for a Bitbucket- and a '
              'GitHub-configured instance; non-trivial = cells where the '
              'statement demands a refusal or no job',
